@@ -6,7 +6,7 @@
    matches).  The correspondence check additionally compares the two IMPLEMENTATIONS directly on
    UTF-8 twins for all six searches (see DESIGN.md section 0). *)
 From DV Require Import Model.Base Model.Nfa Model.BwBuild Model.BwSearch Model.Utf8 Model.CwBuild Model.Api Model.Spec Model.Cert
-     Proofs.Utf8Props Proofs.BwCert Proofs.CwCert Theory.Utf8Spec.
+     Proofs.Utf8Props Proofs.BwCert Proofs.CwCert Theory.Utf8Spec Proofs.TrieInv Proofs.BuildTrie Proofs.BuildProps Proofs.BuiltAutomata.
 Local Open Scope N_scope.
 
 (* (1) self-synchronisation: a non-empty UTF-8 pattern occurs in a UTF-8 text only at a character
@@ -105,6 +105,42 @@ Proof.
   exact (spec_bytes_eq_spec_chars V pvs Hne Hsc Hnd cs Hs).
 Qed.
 Print Assumptions cw_eq_bw_overlapping.
+
+(* (8) C08 for EVERY pair of built automata (builder theorems of C01, both variants): build the
+   character-wise automaton from scalar patterns and the byte-wise automaton from their UTF-8
+   encodings, with any num_free_blocks each; on every UTF-8 text the two overlapping searches
+   return the same list. *)
+Lemma encode_utf8_is_bytes : forall p, Forall scalar p -> Forall (fun b => b < 256) (encode_utf8 p).
+Proof.
+  intros p Hs. apply Forall_forall. intros b Hb. unfold encode_utf8 in Hb. apply in_flat_map in Hb as (c & Hc & Hb).
+  rewrite Forall_forall in Hs. specialize (Hs c Hc). apply scalar_range in Hs. unfold encode_char in Hb.
+  destruct (c <? 128) eqn:E1; [destruct Hb as [<-|[]]; lia|].
+  destruct (c <? 2048) eqn:E2; [destruct Hb as [<-|[<-|[]]]; lia|].
+  destruct (c <? 65536) eqn:E3; [destruct Hb as [<-|[<-|[<-|[]]]]; lia|].
+  destruct Hb as [<-|[<-|[<-|[<-|[]]]]]; lia.
+Qed.
+
+Theorem cw_eq_bw_for_every_built_pair :
+  forall (V : Type) (veqb : V -> V -> bool), (forall a b, veqb a b = true <-> a = b) ->
+  forall nfb1 nfb2 (pvs : list (list N * V)) (C : cw_automaton V) (B : bw_automaton V),
+    (forall p v, In (p, v) pvs -> Forall scalar p) ->
+    4 * total_len V pvs <= U32_MAX - 1 ->
+    4 * total_len V (map (fun pv => (encode_utf8 (fst pv), snd pv)) pvs) <= U32_MAX - 1 ->
+    cw_build_with_values V Standard nfb1 pvs = Ok C ->
+    bw_build_with_values V Standard nfb2 (map (fun pv => (encode_utf8 (fst pv), snd pv)) pvs) = Ok B ->
+  forall cs : list N, Forall scalar cs ->
+    cw_find_overlapping_iter V C (encode_utf8 cs) = bw_find_overlapping_iter V B (encode_utf8 cs).
+Proof.
+  intros V veqb Hv nfb1 nfb2 pvs C B Hsc Hs1 Hs2 HC HB cs Hcs.
+  assert (Hbytes : forall p v, In (p, v) (map (fun pv => (encode_utf8 (fst pv), snd pv)) pvs) -> Forall (fun b => b < 256) p).
+  { intros p v Hin. apply in_map_iff in Hin as [[q w] [E Hq]]. cbn [fst snd] in E. injection E as E1 E2. rewrite <- E1. apply encode_utf8_is_bytes. exact (Hsc q w Hq). }
+  assert (Hnd : NoDup (map fst pvs)).
+  { destruct (cw_build_ok_lemma V Standard nfb1 pvs C Hs1 HC) as (Hv' & _). apply spec_build_error_none_iff_valid in Hv' as (_ & _ & Hn). exact Hn. }
+  apply (cw_eq_bw_overlapping V veqb (fun a b => proj1 (Hv a b)) C B pvs); try assumption.
+  - exact (cw_built_cert V veqb Hv nfb1 pvs C Hs1 HC).
+  - exact (built_cert V veqb Hv nfb2 _ B Hbytes Hs2 HB).
+Qed.
+Print Assumptions cw_eq_bw_for_every_built_pair.
 
 (* Non-vacuity: "é" (2 bytes) inside "aé😀é": found at byte offset 1 = boundary of character 1,
    not at the continuation byte; U+10FFFF decodes. *)
